@@ -186,6 +186,17 @@ theorem stored_frames_exact_encapsulated_partial (c : CodecImpl) (hc : c.Lossles
     readStoredFrameEncapsulated c conv x.ts e f = .ok ((plane x (f / x.m) (f % x.m)).map cellValue) :=
   readStoredFrameEncapsulated_build c hc conv x e h hts f hf
 
+/-- **An encapsulated map read through highdicom's own readers** (`get_stored_frame`, the pixel transform, `ImageFileReader`:
+the call regenerated in T13g): for item `f` they return the values of plane `f / m`, channel `f mod m` whatever frame index they
+pass -- the index has no effect on encapsulated data (`C07.decode_index_has_no_effect`). -/
+theorem stored_frames_exact_encapsulated_through_readers_partial (c : CodecImpl) (hc : c.LosslessOn codecRegion)
+    (conv : List Int → List Int) (x : PMInput) (e : PMEncapsulated) (h : buildEncapsulated c x = .ok e)
+    (hts : x.ts = rle ∨ x.ts = jpegLs) (f : Nat) (hf : f < x.n * x.m) (b : List Nat) (hb : e.items[f]? = some b) (index : Int) :
+    readFrame c conv (e.obj.module x.ts) b index = .ok ((plane x (f / x.m) (f % x.m)).map cellValue) := by
+  have henc : isEncapsulated x.ts = true := by rcases hts with h | h <;> rw [h] <;> decide
+  rw [pm_encapsulated_readers_eq c conv x.ts e f b hb henc index]
+  exact readStoredFrameEncapsulated_build c hc conv x e h hts f hf
+
 /-- frame numbers beyond the image are refused (native) -/
 theorem stored_frame_out_of_range (x : PMInput) (o : PMObject) (h : build x = .ok o) (hts : x.ts ∈ nativeSyntaxes)
     (hel : o.element = "PixelData") (f : Nat) (hf : x.n * x.m ≤ f) : readStoredFrame o f = .error .index := by
@@ -561,5 +572,12 @@ example (o : PMObject) (h : build exampleInput = .ok o) :
 example (o : SCObject) (h : scBuild noCodec "1.2.840.10008.1.2.1" "MONOCHROME2" 16 ⟨1, 3, none, .u16, [1, 4095, 256]⟩ = .ok o) :
     readFrame noCodec id (o.module "1.2.840.10008.1.2.1") o.frameBytes 3 = .ok [1, 4095, 256] :=
   sc_readers_return_array_partial noCodec id _ _ 16 _ o (by unfold Frame.WF; decide) (by decide) (by decide) (by decide) h 3
+open HdVerif.C07 in
+/-- ... and through a reader of the image classes that passes the frame's own index -/
+example (e : PMEncapsulated) (h : buildEncapsulated tagCodec { exampleInput with ts := rle } = .ok e)
+    (hb : e.items[2]? = some [0x54, 10, 14]) :
+    readFrame tagCodec id (e.obj.module rle) [0x54, 10, 14] 2 = .ok [5, 7] :=
+  stored_frames_exact_encapsulated_through_readers_partial tagCodec (tagCodec_lossless _) id { exampleInput with ts := rle } e h
+    (Or.inl rfl) 2 (by decide) _ hb 2
 
 end HdVerif.C19
